@@ -76,8 +76,8 @@ def build(comm, cfg):
 # strategies
 # ----------------------------------------------------------------------------
 @st.composite
-def handler_config(draw, tier, min_dims=2, max_dims=4, max_extent=9, connected_only=False):
-    max_procs = 8 if tier == "quick" else 12
+def handler_config(draw, tier, min_dims=2, max_dims=4, max_extent=9, connected_only=False, max_procs=None):
+    max_procs = max_procs or (8 if tier == "quick" else 12)
     ndims = draw(st.integers(min_dims, max_dims))
     grids = gen.all_process_grids(max_procs, 1, min(2, ndims))
     both = [g for g in grids if len(g) == 2 and g[0] > 1 and g[1] > 1]
@@ -98,16 +98,16 @@ def handler_config(draw, tier, min_dims=2, max_dims=4, max_extent=9, connected_o
 
 
 @st.composite
-def swapper_config(draw, tier, min_dims=3, max_dims=4, max_extent=8):
-    max_procs = 8 if tier == "quick" else 12
+def swapper_config(draw, tier, min_dims=3, max_dims=4, max_extent=8, max_procs=None):
+    max_procs = max_procs or (8 if tier == "quick" else 12)
     ndims = draw(st.integers(min_dims, max_dims))
     grids = gen.all_process_grids(max_procs, 2, 2)
     both = [g for g in grids if g[0] > 1 and g[1] > 1]
     square = [g for g in both if g[0] == g[1]]
     pick = draw(st.integers(0, 9))
-    if pick < 5:
+    if pick < 5 and both:
         p0, p1 = draw(st.sampled_from(both))
-    elif pick < 7:
+    elif pick < 7 and square:
         p0, p1 = draw(st.sampled_from(square))
     else:
         p0, p1 = draw(st.sampled_from(grids))
